@@ -30,6 +30,7 @@ type vxC13PCase struct {
 	Errs     [][]vxC13PErr `json:"errs"`   // per page: the answers before the page itself is served
 	Policy   vxC13Policy   `json:"policy"` // simple | down | table (table: decisions Retry)
 	Prefetch int           `json:"prefetch"` // per cent
+	Spec     int           `json:"spec,omitempty"` // >0: a speculative execution policy with that many attempts and a delay (5 s) that never elapses here
 	Cons     int           `json:"cons"`
 }
 
@@ -176,6 +177,10 @@ func vxRunC13Paged(c *vxC13PCase, k *vstats.Case) error {
 	if c.Policy.Via != "cluster" {
 		q = q.RetryPolicy(pol)
 	}
+	if c.Spec > 0 {
+		q = q.SetSpeculativeExecutionPolicy(&SimpleSpeculativeExecution{NumAttempts: c.Spec, TimeoutDelay: 5 * time.Second})
+		k.Class("with a speculative execution policy (never firing)")
+	}
 	type res struct {
 		rows [][2]int
 		err  error
@@ -312,6 +317,7 @@ func vxRunC13Paged(c *vxC13PCase, k *vstats.Case) error {
 func vxDrawC13Paged(t *rapid.T) *vxC13PCase {
 	c := &vxC13PCase{Proto: rapid.IntRange(2, 5).Draw(t, "proto"), Prefetch: rapid.SampledFrom([]int{0, 25, 100}).Draw(t, "prefetch"),
 		Cons: rapid.SampledFrom([]int{int(Quorum), int(All), int(One)}).Draw(t, "cons")}
+	c.Spec = rapid.SampledFrom([]int{0, 0, 1, 2}).Draw(t, "spec")
 	np := rapid.IntRange(1, 4).Draw(t, "pages")
 	c.Policy.Kind = rapid.SampledFrom([]string{"simple", "down", "table"}).Draw(t, "policy")
 	c.Policy.Via = rapid.SampledFrom([]string{"query", "cluster"}).Draw(t, "via")
